@@ -258,7 +258,13 @@ fn main() {
     remove_only.extend([Op::Flush, Op::Remove(3)]);
     let mut update_only = adds.clone();
     update_only.extend([Op::Flush, Op::Update(1, 0)]);
+    // a unique value handed over inside one unflushed window: its checkpointed holder is
+    // removed and a new document takes the value; recovery must retire the old posting
+    // before it re-indexes the new document
+    let mut handover = adds.clone();
+    handover.extend([Op::Flush, Op::Remove(1), Op::Add(2)]);
     let mut plans: Vec<(&str, Idx, Vec<Op>, bool)> = vec![
+        ("handover/all", Idx::ALL, handover, false),
         ("remove-only/all", Idx::ALL, remove_only, false),
         ("update-only/all", Idx::ALL, update_only, false),
         ("adds/bare", bare, adds.clone(), true),
